@@ -6,11 +6,12 @@ cd /verif
 : > seeded/SUMMARY.txt.new
 for d in $(ls seeded | grep -v "^benign-\|SUMMARY" | sort); do
   id="${d%%-*}"
+  if [ -f seeded/$d/SUPERSEDED ]; then echo "$d: superseded (see meta.json)" >> seeded/SUMMARY.txt.new; continue; fi
   prev=$(grep -h " rc=1 " seeded/$d/detect_quick.txt 2>/dev/null | awk '{print $1}' | sort -u | tr '\n' ' ')
+  prev=$(echo $prev | tr ' ' '\n' | grep -v "^$id\$" | head -2 | tr '\n' ' ')
   checks="$id $prev"
-  checks=$(echo $checks | tr ' ' '\n' | sort -u | tr '\n' ' ')
   echo "===== $d ($checks)"
-  if [ -f seeded/$d/demo.rs ]; then tools/verify_seed.sh seeded/$d | tail -4 | cut -c1-120; fi
+  if [ -f seeded/$d/demo.rs ] || [ -f seeded/$d/demo.py ]; then tools/verify_seed.sh seeded/$d | tail -4 | cut -c1-120; fi
   tools/try_seed.sh seeded/$d quick $checks | cut -c1-200
   hit=$(grep " rc=1 " seeded/$d/detect_quick.txt | awk '{print $1}' | tr '\n' ' ')
   echo "$d: ${hit:-NOT DETECTED}" >> seeded/SUMMARY.txt.new
@@ -21,5 +22,5 @@ for d in $(ls seeded | grep "^benign-" | sort); do
   echo "$d: ${hit:-silent (all 16 checks exit 0)}" >> seeded/SUMMARY.txt.new
 done
 mv seeded/SUMMARY.txt.new seeded/SUMMARY.txt
-rm -rf /tmp/wt/verify_target
+rm -rf /tmp/wt/verify_target /tmp/wt/verify_target_py /tmp/wt/verify_pymod
 echo REVERIFY-DONE
